@@ -389,6 +389,7 @@ Definition requirements (im : image) (i : instr) (pc : Z) (l : label) : option (
                    if (match lab im addr with Some (O, O) => true | _ => false end)
                       && (match seg_of im addr with Some (SegRtn a r) => (a =? addr) && (r =? ret) | _ => false end)
                       && (match fetch im (pc + 1) with Some j => opcode_eqb (i_op j) OC_END_CTX | None => false end)
+                      && (match fetch im addr with Some j => negb (opcode_eqb (i_op j) OC_ROUTINE) | None => false end)
                    then Some [(pc + 1, (d, c'))] else None
                | None => None
                end
@@ -431,7 +432,8 @@ Definition wf_image (im : image) : bool :=
   (* one label per position, and the start is a consistent point *)
   Nat.eqb (length (labels im)) (S (length (im_code im))) &&
   match lab im 0 with Some (O, O) => true | _ => false end &&
-  match seg_of im 0 with Some SegMain | Some SegBoot => true | _ => false end.
+  match seg_of im 0 with Some SegMain | Some SegBoot => true | _ => false end &&
+  match fetch im 0 with Some i => negb (opcode_eqb (i_op i) OC_ROUTINE) | None => true end.
 
 (* ====================================================================== *)
 (* ---------- soundness of the checker ---------- *)
@@ -441,9 +443,12 @@ Definition loops (d : nat) : list fsh := repeat ShLoop d.
 (* What the frame stack must look like when control is at pc: the pending call contexts,
    the loop frames of the segment, and below them nothing (main program) or the frame of
    the routine in progress, whose return address is again a consistent point. *)
+Definition not_routine_at (im : image) (pc : Z) : Prop :=
+  match fetch im pc with Some i => opcode_eqb (i_op i) OC_ROUTINE = false | None => True end.
+
 Inductive ok_state (im : image) : Z -> list fsh -> Prop :=
 | ok_st : forall pc d c sg base,
-    lab im pc = Some (d, c) -> seg_of im pc = Some sg -> base_ok im sg base ->
+    lab im pc = Some (d, c) -> seg_of im pc = Some sg -> base_ok im sg base -> not_routine_at im pc ->
     ok_state im pc (pend c ++ loops d ++ base)
 with base_ok (im : image) : segment -> list fsh -> Prop :=
 | base_main : base_ok im SegMain []
@@ -472,7 +477,7 @@ Lemma check_all pc i : fetch im pc = Some i -> check_pc im pc = true.
 Proof.
   intros Hf. pose proof (fetch_bounds pc i Hf) as Hb.
   pose proof Hwf as W. unfold wf_image in W.
-  do 5 (apply andb_true_iff in W; destruct W as [W _]).
+  do 6 (apply andb_true_iff in W; destruct W as [W _]).
   apply andb_true_iff in W. destruct W as [_ W]. rewrite forallb_forall in W. apply W.
   apply zrange_n_In. unfold zlength in Hb. lia.
 Qed.
@@ -489,17 +494,24 @@ Proof.
 Qed.
 
 (* a checked edge leads to a consistent point with the same base *)
+Lemma target_not_routine pc t l : target_ok im pc (t, l) = true -> not_routine_at im t.
+Proof.
+  intros Ht. unfold target_ok in Ht. apply andb_true_iff in Ht. destruct Ht as [_ Ht]. unfold not_routine_at.
+  destruct (fetch im t) as [i|]; [|exact I]. apply negb_true_iff in Ht. exact Ht.
+Qed.
+
 Lemma target_sound pc t (d' c' : nat) sg base :
   seg_of im pc = Some sg -> base_ok im sg base ->
   target_ok im pc (t, (d', c')) = true ->
   ok_state im t (pend c' ++ loops d' ++ base).
 Proof.
-  intros Hs Hb Ht. unfold target_ok in Ht. apply andb_true_iff in Ht. destruct Ht as [Ht _].
+  intros Hs Hb Ht. pose proof (target_not_routine pc t (d', c') Ht) as Hnr.
+  unfold target_ok in Ht. apply andb_true_iff in Ht. destruct Ht as [Ht _].
   apply andb_true_iff in Ht. destruct Ht as [Hseg Hlab].
   destruct (lab im t) as [[d2 c2]|] eqn:El; [|discriminate]. cbn [fst snd] in Hlab.
   apply andb_true_iff in Hlab. destruct Hlab as [Hd Hc]. apply Nat.eqb_eq in Hd. apply Nat.eqb_eq in Hc. subst d2 c2.
   destruct (segment_move pc t sg Hs Hseg) as [sg' [Hs' Hb']].
-  econstructor; [exact El|exact Hs'|apply Hb'; exact Hb].
+  econstructor; [exact El|exact Hs'|apply Hb'; exact Hb|exact Hnr].
 Qed.
 
 Lemma target_facts pc t (d' c' : nat) sg :
@@ -530,7 +542,7 @@ Theorem ok_step pc sh i pc' sh' :
   ok_state im pc sh -> fetch im pc = Some i -> In (pc', sh') (anext im i pc sh) -> ok_state im pc' sh'.
 Proof.
   intros Hok Hf Hin. pose proof (check_all pc i Hf) as Hc.
-  inversion Hok as [pc0 d c sg base Hl Hs Hb Epc Esh]. subst pc0 sh. clear Hok.
+  inversion Hok as [pc0 d c sg base Hl Hs Hb Hnr Epc Esh]. subst pc0 sh. clear Hok.
   unfold check_pc in Hc. rewrite Hf, Hl in Hc.
   destruct (opcode_eqb (i_op i) OC_ROUTINE) eqn:Ert.
   { apply internal_opcode_dec_bl in Ert. unfold anext in Hin. rewrite Ert in Hin. destruct Hin. }
@@ -579,7 +591,10 @@ Proof.
       destruct (match lab im addr with Some (O, O) => true | _ => false end) eqn:Ela; [|discriminate].
       destruct (match seg_of im addr with Some (SegRtn a r) => (a =? addr) && (r =? ret) | _ => false end) eqn:Esa; [|discriminate].
       destruct (fetch im (pc + 1)) as [j|] eqn:Efj; [|discriminate].
-      destruct (opcode_eqb (i_op j) OC_END_CTX) eqn:Ej; [|discriminate]. cbn [andb] in Er. inversion Er. subst reqs.
+      destruct (opcode_eqb (i_op j) OC_END_CTX) eqn:Ej; [|discriminate].
+      destruct (fetch im addr) as [ja|] eqn:Efa; [|discriminate].
+      destruct (negb (opcode_eqb (i_op ja) OC_ROUTINE)) eqn:Eja; [|discriminate].
+      cbn [andb] in Er. inversion Er. subst reqs.
       destruct Hin as [Hin|[]]. inversion Hin. subst pc' sh'. clear Hin.
       destruct (lab im addr) as [[[|] [|]]|] eqn:Ela'; try discriminate.
       destruct (seg_of im addr) as [[|a r|]|] eqn:Esa'; try discriminate.
@@ -597,7 +612,8 @@ Proof.
         eapply target_sound; [exact Hs1|apply Hb1; exact Hb|]. apply Hc2. left. reflexivity. }
       change (ShCall true (Some (pc + 1)) :: pend c' ++ loops d ++ base)
         with (pend 0 ++ loops 0 ++ (ShCall true (Some (pc + 1)) :: pend c' ++ loops d ++ base)).
-      econstructor; [exact Ela'|exact Esa'|]. constructor; assumption.
+      econstructor; [exact Ela'|exact Esa'|constructor; assumption|].
+      unfold not_routine_at. rewrite Efa. apply negb_true_iff. exact Eja.
   - (* JUMP *)
     destruct (i_p0 i) as [| | | | | | | | | |jc| | | | |]; try discriminate.
     destruct jc; destruct (i_p1 i) as [|off| | | | | | | | | | | | | |]; try discriminate; inversion Er; subst reqs.
@@ -631,11 +647,14 @@ Qed.
 Lemma ok_initial : ok_state im 0 [].
 Proof.
   pose proof Hwf as W. unfold wf_image in W.
-  apply andb_true_iff in W. destruct W as [W Hseg]. apply andb_true_iff in W. destruct W as [W Hlab]. clear W.
+  apply andb_true_iff in W. destruct W as [W Hnr]. apply andb_true_iff in W. destruct W as [W Hseg].
+  apply andb_true_iff in W. destruct W as [W Hlab]. clear W.
+  assert (Hnr' : not_routine_at im 0).
+  { unfold not_routine_at. destruct (fetch im 0); [apply negb_true_iff; exact Hnr|exact I]. }
   destruct (lab im 0) as [[[|] [|]]|] eqn:El; try discriminate.
   destruct (seg_of im 0) as [[| |]|] eqn:Es; try discriminate.
-  - change (@nil fsh) with (pend 0 ++ loops 0 ++ @nil fsh). econstructor; [exact El|exact Es|constructor].
-  - change (@nil fsh) with (pend 0 ++ loops 0 ++ @nil fsh). econstructor; [exact El|exact Es|constructor].
+  - change (@nil fsh) with (pend 0 ++ loops 0 ++ @nil fsh). econstructor; [exact El|exact Es|constructor|exact Hnr'].
+  - change (@nil fsh) with (pend 0 ++ loops 0 ++ @nil fsh). econstructor; [exact El|exact Es|constructor|exact Hnr'].
 Qed.
 
 (* states the machine can reach on this image from its initial state *)
@@ -650,7 +669,7 @@ Proof.
   - exact ok_initial.
   - eapply ok_step; [exact IH|exact Hf|]. apply (exec_abstracts im i s s' evs); [|exact He].
     pose proof (check_all (m_pc s) i Hf) as Hc. unfold check_pc in Hc. rewrite Hf in Hc.
-    inversion IH as [pc0 d c sg base Hl Hs Hb Epc Esh]. rewrite Hl in Hc.
+    inversion IH as [pc0 d c sg base Hl Hs Hb Hnr Epc Esh]. rewrite Hl in Hc.
     destruct (opcode_eqb (i_op i) OC_ROUTINE) eqn:Ert.
     + apply internal_opcode_dec_bl in Ert. unfold exec in He. rewrite Ert in He. discriminate.
     + apply andb_true_iff in Hc. tauto.
@@ -659,11 +678,11 @@ Qed.
 (* ---------- what a consistent point guarantees ---------- *)
 Lemma ok_pc_in_program pc sh : ok_state im pc sh -> 0 <= pc <= zlength (im_code im).
 Proof.
-  intros H. inversion H as [pc0 d c sg base Hl Hs Hb Epc Esh]. unfold lab in Hl.
+  intros H. inversion H as [pc0 d c sg base Hl Hs Hb Hnr Epc Esh]. unfold lab in Hl.
   destruct (pc <? 0) eqn:E; [discriminate|]. apply Z.ltb_ge in E.
   assert (nth_error (labels im) (Z.to_nat pc) <> None) as Hn by congruence. apply nth_error_Some in Hn.
   pose proof Hwf as W. unfold wf_image in W.
-  do 2 (apply andb_true_iff in W; destruct W as [W _]).
+  do 3 (apply andb_true_iff in W; destruct W as [W _]).
   apply andb_true_iff in W. destruct W as [_ Hlen]. apply Nat.eqb_eq in Hlen. unfold zlength. lia.
 Qed.
 
@@ -672,7 +691,7 @@ Lemma ok_in_routine pc sh a r : ok_state im pc sh -> seg_of im pc = Some (SegRtn
   exists c d ret rest, lab im pc = Some (d, c) /\ sh = pend c ++ loops d ++ ShCall true (Some ret) :: rest /\
                        ok_state im ret rest /\ ok_state im (ret + 1) rest.
 Proof.
-  intros H Hs. inversion H as [pc0 d c sg base Hl Hs' Hb Epc Esh]. rewrite Hs in Hs'. inversion Hs'. subst sg.
+  intros H Hs. inversion H as [pc0 d c sg base Hl Hs' Hb Hnr Epc Esh]. rewrite Hs in Hs'. inversion Hs'. subst sg.
   inversion Hb as [| |a' r' ret rest H1 H2]. subst. exists c, d, ret, rest. repeat split; assumption.
 Qed.
 
@@ -680,18 +699,118 @@ Qed.
 Lemma ok_in_main pc sh : ok_state im pc sh -> seg_of im pc = Some SegMain ->
   exists c d, lab im pc = Some (d, c) /\ sh = pend c ++ loops d.
 Proof.
-  intros H Hs. inversion H as [pc0 d c sg base Hl Hs' Hb Epc Esh]. rewrite Hs in Hs'. inversion Hs'. subst sg.
+  intros H Hs. inversion H as [pc0 d c sg base Hl Hs' Hb Hnr Epc Esh]. rewrite Hs in Hs'. inversion Hs'. subst sg.
   inversion Hb. subst. exists c, d. rewrite !app_nil_r. split; [exact Hl|reflexivity].
 Qed.
 
 (* when the program runs off its end nothing is left dangling *)
 Lemma ok_at_end sh : ok_state im (zlength (im_code im)) sh -> in_main im (zlength (im_code im)) = true -> sh = [].
 Proof.
-  intros H Hm. inversion H as [pc0 d c sg base Hl Hs Hb Epc Esh].
+  intros H Hm. inversion H as [pc0 d c sg base Hl Hs Hb Hnr Epc Esh].
   pose proof Hwf as W. unfold wf_image in W.
-  do 3 (apply andb_true_iff in W; destruct W as [W _]).
+  do 4 (apply andb_true_iff in W; destruct W as [W _]).
   apply andb_true_iff in W. destruct W as [_ E]. rewrite Hl in E. destruct d; [|discriminate]. destruct c; [|discriminate].
   unfold seg_of in Hs. rewrite Hm in Hs. inversion Hs. subst sg. inversion Hb. reflexivity.
 Qed.
 
 End Sound.
+
+
+(* ====================================================================== *)
+(* ---------- no internal control fault on a checked image (C06) ---------- *)
+Section NoFault.
+Variable im : image.
+Hypothesis Hwf : wf_image im = true.
+
+(* what the checker established about the instruction a reachable state is about to execute *)
+Lemma reach_facts s i :
+  reach im s -> fetch im (m_pc s) = Some i ->
+  opcode_eqb (i_op i) OC_ROUTINE = false /\
+  exists d c sg base reqs,
+    seg_of im (m_pc s) = Some sg /\ base_ok im sg base /\
+    shape_of (m_frames s) = pend c ++ loops d ++ base /\
+    requirements im i (m_pc s) (d, c) = Some reqs.
+Proof.
+  intros Hr Hf. pose proof (wf_image_sound im Hwf s Hr) as Hok.
+  inversion Hok as [pc0 d c sg base Hl Hs Hb Hnr Epc Esh].
+  unfold not_routine_at in Hnr. rewrite Hf in Hnr. split; [exact Hnr|].
+  pose proof (check_all im Hwf (m_pc s) i Hf) as Hc. unfold check_pc in Hc. rewrite Hf, Hl, Hnr in Hc.
+  apply andb_true_iff in Hc. destruct Hc as [_ Hc].
+  destruct (requirements im i (m_pc s) (d, c)) as [reqs|] eqn:Er; [|discriminate].
+  exists d, c, sg, base, reqs. split; [exact Hs|]. split; [exact Hb|]. split; [congruence|exact Er].
+Qed.
+
+(* control never arrives at a ROUTINE marker (a routine body is entered by a call only) *)
+Theorem no_routine_marker_executed s i :
+  reach im s -> fetch im (m_pc s) = Some i -> i_op i <> OC_ROUTINE.
+Proof.
+  intros Hr Hf Hop. destruct (reach_facts s i Hr Hf) as [Hn _]. rewrite Hop in Hn. discriminate.
+Qed.
+
+(* the program counter never leaves the program: either an instruction is there, or the
+   program has just run off its end *)
+Theorem pc_never_outside s : reach im s -> 0 <= m_pc s <= zlength (im_code im).
+Proof. intros Hr. eapply ok_pc_in_program; [exact Hwf|]. apply wf_image_sound; assumption. Qed.
+
+Lemma shape_head_loop fs r : shape_of fs = ShLoop :: r -> exists lv d t, fs = FLoop lv d :: t.
+Proof. destruct fs as [|[p e rt|lv d] t]; cbn; intros H; inversion H. eauto. Qed.
+
+Lemma shape_head_call fs e rt r : shape_of fs = ShCall e rt :: r -> exists p t, fs = FCall p e rt :: t.
+Proof. destruct fs as [|[p e' rt'|lv d] t]; cbn; intros H; inversion H. subst. eauto. Qed.
+
+(* END_LOOP always finds its loop frame *)
+Theorem end_loop_finds_frame s i :
+  reach im s -> fetch im (m_pc s) = Some i -> i_op i = OC_END_LOOP -> exists s', exec im i s = Next s' [].
+Proof.
+  intros Hr Hf Hop. destruct (reach_facts s i Hr Hf) as [_ [d [c [sg [base [reqs [Hs [Hb [Hsh Hrq]]]]]]]]].
+  unfold requirements in Hrq. rewrite Hop in Hrq. destruct c; [|discriminate]. destruct d as [|d']; [discriminate|].
+  cbn [pend repeat app] in Hsh. rewrite loops_S in Hsh. cbn [app] in Hsh.
+  destruct (shape_head_loop _ _ Hsh) as [lv [dd [t Hfs]]].
+  unfold exec. rewrite Hop, Hfs. eexists. reflexivity.
+Qed.
+
+(* every call names a routine that exists, and is made inside a call context *)
+Theorem jsr_finds_routine s i :
+  reach im s -> fetch im (m_pc s) = Some i -> i_op i = OC_JSR ->
+  exists p e rt t n, m_frames s = FCall p e rt :: t /\ i_p0 i = PStr n /\
+    (is_builtin n = true \/ exists addr ret, find_routine (PStr n) (im_routines im) = Some (addr, ret)).
+Proof.
+  intros Hr Hf Hop. destruct (reach_facts s i Hr Hf) as [_ [d [c [sg [base [reqs [Hs [Hb [Hsh Hrq]]]]]]]]].
+  unfold requirements in Hrq. rewrite Hop in Hrq. destruct c as [|c']; [discriminate|].
+  destruct (i_p0 i) as [| | | |n| | | | | | | | | | |] eqn:Ep0; try discriminate.
+  rewrite pend_S in Hsh. cbn [app] in Hsh. destruct (shape_head_call _ _ _ _ Hsh) as [p [t Hfs]].
+  exists p, false, None, t, n. split; [exact Hfs|]. split; [reflexivity|].
+  destruct (is_builtin n); [left; reflexivity|right].
+  destruct (find_routine (PStr n) (im_routines im)) as [[addr ret]|]; [eauto|discriminate].
+Qed.
+
+(* a routine's END and every RETURN find the frame of the call to return from *)
+Lemma do_return_from_shape s d e ret rest :
+  shape_of (m_frames s) = loops d ++ ShCall e (Some ret) :: rest -> exists s', do_return s = Next s' [].
+Proof.
+  intros Hsh. unfold do_return.
+  destruct (unwind (m_frames s) None) as [fs dd] eqn:Eu.
+  pose proof (unwind_shape (m_frames s) None) as U. rewrite Eu in U. cbn [fst] in U. rewrite Hsh in U.
+  assert (Hu : unwind_sh (loops d ++ ShCall e (Some ret) :: rest) = ShCall e (Some ret) :: rest).
+  { clear. induction d as [|d IH]; cbn; [reflexivity|exact IH]. }
+  rewrite Hu in U. destruct (shape_head_call _ _ _ _ U) as [p [t Hfs]]. rewrite Hfs. eexists. reflexivity.
+Qed.
+
+Theorem return_finds_call s i :
+  reach im s -> fetch im (m_pc s) = Some i -> i_op i = OC_RETURN \/ is_named_end i = true ->
+  exists s', do_return s = Next s' [].
+Proof.
+  intros Hr Hf Hop. destruct (reach_facts s i Hr Hf) as [_ [d [c [sg [base [reqs [Hs [Hb [Hsh Hrq]]]]]]]]].
+  unfold requirements in Hrq. cbv zeta in Hrq.
+  assert (Hin : exists a r, sg = SegRtn a r /\ c = O).
+  { destruct Hop as [Hop|Hop].
+    - rewrite Hop in Hrq. rewrite Hs in Hrq. destruct sg as [|a r|]; try discriminate.
+      destruct (Nat.eqb c 0) eqn:Ec; [|discriminate]. apply Nat.eqb_eq in Ec. eauto.
+    - assert (Ho : i_op i = OC_END) by (unfold is_named_end in Hop; destruct (i_op i); try discriminate; reflexivity).
+      rewrite Ho, Hop, Hs in Hrq. destruct sg as [|a r|]; try discriminate.
+      destruct (Nat.eqb d 0); [|discriminate]. destruct (Nat.eqb c 0) eqn:Ec; [|discriminate]. apply Nat.eqb_eq in Ec. eauto. }
+  destruct Hin as [a [r [-> ->]]]. inversion Hb as [| |a' r' ret rest H1 H2]. subst.
+  cbn [pend repeat app] in Hsh. eapply do_return_from_shape. exact Hsh.
+Qed.
+
+End NoFault.
